@@ -68,6 +68,7 @@ type simEth struct {
 	faults   map[string]int // method -> number of next calls that fail
 	subs     []*simSub
 	gsKeys   []common.Address
+	drain    func(n int) // called under the lock before a request is recorded: n = requests recorded so far
 }
 
 type simSub struct {
@@ -100,6 +101,9 @@ func (s *simEth) fail(method string) bool {
 }
 
 func (s *simEth) record(e served) {
+	if s.drain != nil {
+		s.drain(len(s.served))
+	}
 	e.seq = len(s.served)
 	s.served = append(s.served, e)
 }
